@@ -1,5 +1,9 @@
 // C03 (E-SCHED part): batch span/log processors under generated schedules; see batch_sched.h.
 #include "batch_sched.h"
+#include "reader_sched.h"
+
+#include "opentelemetry/sdk/logs/simple_log_record_processor.h"
+#include "opentelemetry/sdk/trace/simple_processor.h"
 
 const char *vh_property_id = "C03";
 
@@ -47,4 +51,151 @@ VH_TARGET(bsp_sched, 4, "BatchSpanProcessor: non-trivial when a batch was export
 VH_TARGET(blp_sched, 4, "BatchLogRecordProcessor: non-trivial when a batch was exported after an earlier ForceFlush call, or the schedule preempted a running thread while exports happened; distinct = distinct (scenario, schedule taken)")
 {
   run(c, true);
+}
+
+VH_TARGET(reader_sched, 4, "PeriodicExportingMetricReader: non-trivial when 2+ Exports happened and the schedule preempted a running thread or a ForceFlush overlapped an Export; distinct = distinct (scenario, schedule taken)")
+{
+  rs::Cfg cfg = rs::gen_cfg(c.rd);
+  c.note(rs::describe(cfg));
+  rs::History h;
+  rs::run_scenario(c, cfg, h);
+  c.note(bs::schedule_text());
+  VH_CHECK(c, !h.rs.leaked_threads, "a thread of the reader was still alive after Shutdown and destruction");
+  rs::common_tags(c, cfg, h);
+  rs::check_bounds(c, cfg, h);
+  c.nontrivial = h.exports.size() >= 2 && (h.rs.preemptions > 0 || rs::flush_overlaps_export(h));
+}
+
+// ------------------------------------------------------------------------------------------------
+// simple processors called from 2..3 threads: the spin lock must serialise Export
+namespace
+{
+template <class Processor, class Traits>
+void run_simple(vh::Case &c, const bs::Cfg &cfg, bs::History &h)
+{
+  vsh::ByteSource src(c.rd, 56);
+  vsched::Options opt;
+  opt.step_budget = 600000;
+  c.note(std::string(" schedule-mode=") + src.mode_name() + "\n");
+  h.rs = vsched::run(&src, opt, vsh::fatal, [&](vsched::Scheduler &s) {
+    std::unique_ptr<typename Traits::Exporter> ex(new typename Traits::Exporter(cfg, h, s));
+    Processor P(std::move(ex));
+    std::vector<std::unique_ptr<vsched::thread>> ts;
+    for (size_t p = 0; p < cfg.producers.size(); ++p)
+      ts.emplace_back(new vsched::thread([&, p]() {
+        int seq = 0;
+        for (auto &op : cfg.producers[p])
+        {
+          if (op.kind == bs::Op::SLEEP)
+            vsched::this_thread::sleep_for(std::chrono::microseconds(op.arg));
+          else if (op.kind == bs::Op::PRODUCE)
+          {
+            bs::ProduceRec r;
+            r.producer = static_cast<int>(p);
+            r.seq      = seq++;
+            r.call     = s.steps();
+            r.call_ns  = s.now_ns();
+            auto rec   = P.MakeRecordable();
+            Traits::tag(*rec, r.producer, r.seq);
+            Traits::emit(P, std::move(rec));
+            r.ret       = s.steps();
+            r.ret_ns    = s.now_ns();
+            r.own_steps = 0;
+            h.produced.push_back(r);
+          }
+          else if (op.kind == bs::Op::FLUSH)
+            P.ForceFlush(std::chrono::microseconds(1000));
+        }
+      }));
+    for (auto &t : ts)
+      t->join();
+    P.Shutdown();
+  });
+}
+struct SimpleSpanT
+{
+  using Exporter = bs::SpanTraits::Exporter;
+  static void tag(opentelemetry::sdk::trace::Recordable &r, int p, int s)
+  {
+    r.SetName("p" + std::to_string(p) + "#" + std::to_string(s));
+  }
+  static void emit(opentelemetry::sdk::trace::SimpleSpanProcessor &P, std::unique_ptr<opentelemetry::sdk::trace::Recordable> r)
+  {
+    P.OnEnd(std::move(r));
+  }
+};
+struct SimpleLogT
+{
+  using Exporter = bs::LogTraits::Exporter;
+  static void tag(opentelemetry::sdk::logs::Recordable &r, int p, int s)
+  {
+    r.SetEventId(static_cast<int64_t>(p) * 1000 + s, "");
+  }
+  static void emit(opentelemetry::sdk::logs::SimpleLogRecordProcessor &P, std::unique_ptr<opentelemetry::sdk::logs::Recordable> r)
+  {
+    P.OnEmit(std::move(r));
+  }
+};
+}  // namespace
+
+VH_TARGET(simple_sched, 4,
+          "Simple span/log processor driven from 2..3 threads: non-trivial when two threads were inside "
+          "OnEnd/OnEmit at overlapping logical times (contention on the spin lock) or the schedule preempted "
+          "a running thread; distinct = distinct (scenario, schedule taken)")
+{
+  vh::Reader &rd = c.rd;
+  bs::Cfg cfg;
+  cfg.logs = rd.coin();
+  static const int64_t lat[] = {0, 300, 3000};
+  cfg.export_latency_us      = lat[rd.below(3)];
+  unsigned nt                = 2 + rd.below(2);
+  for (unsigned t = 0; t < nt; ++t)
+  {
+    std::vector<bs::Op> prog;
+    unsigned n = 1 + rd.below(3);
+    for (unsigned i = 0; i < n; ++i)
+    {
+      if (rd.chance(25))
+        prog.push_back(bs::Op{bs::Op::SLEEP, rd.coin() ? 200 : 2000});
+      prog.push_back(bs::Op{bs::Op::PRODUCE, 0});
+      if (rd.chance(10))
+        prog.push_back(bs::Op{bs::Op::FLUSH, 0});
+    }
+    cfg.producers.push_back(prog);
+  }
+  c.note(std::string(cfg.logs ? "simple-logs" : "simple-spans") + " export_latency=" + bs::show_us(cfg.export_latency_us) + "\n");
+  for (size_t i = 0; i < cfg.producers.size(); ++i)
+  {
+    std::string p = " T" + std::to_string(i) + ":";
+    for (auto &op : cfg.producers[i])
+      p += op.kind == bs::Op::SLEEP ? " sleep" : op.kind == bs::Op::PRODUCE ? " produce" : " flush";
+    c.note(p + "\n");
+  }
+  bs::History h;
+  if (cfg.logs)
+    run_simple<opentelemetry::sdk::logs::SimpleLogRecordProcessor, SimpleLogT>(c, cfg, h);
+  else
+    run_simple<opentelemetry::sdk::trace::SimpleSpanProcessor, SimpleSpanT>(c, cfg, h);
+  c.note(bs::schedule_text());
+  VH_CHECK(c, h.max_in_flight <= 1, "Export was entered while a previous Export on the same exporter was still "
+                                    "running (simple processor, " << h.max_in_flight << " in flight)");
+  std::set<std::pair<int, int>> seen;
+  for (auto &e : h.exports)
+  {
+    VH_CHECK(c, e.tags.size() == 1, "a simple processor delivered a batch of " << e.tags.size());
+    VH_CHECK(c, seen.insert(e.tags[0]).second, "record delivered twice by a simple processor");
+  }
+  VH_CHECK(c, seen.size() == h.produced.size(), "simple processor delivered " << seen.size() << " of "
+                                                                               << h.produced.size() << " records");
+  bool overlap = false;
+  for (size_t i = 0; i < h.produced.size(); ++i)
+    for (size_t j = i + 1; j < h.produced.size(); ++j)
+      if (h.produced[i].producer != h.produced[j].producer && h.produced[i].call < h.produced[j].ret &&
+          h.produced[j].call < h.produced[i].ret)
+        overlap = true;
+  if (overlap)
+    c.tag("overlapping-onend");
+  if (h.rs.preemptions)
+    c.tag("preempted");
+  c.nontrivial = overlap || h.rs.preemptions > 0;
 }
